@@ -17,7 +17,8 @@ TECHNIQUE = {
     "C11": "TLA+ spec + TLC model checking incl. a liveness property; trace validation (impl->spec) plus TLC-generated iterator runs replayed (spec->impl), both build profiles",
     "default": "TLA+ spec + TLC model checking; trace validation of recorded implementation executions against the spec (TLC), both build profiles",
 }
-_common = (" The verdict always comes from conformance: every recorded public call of the real library (all applicable codecs, dev and release builds) "
+_common = (" The verdict always comes from conformance: every recorded public call of the real library (all applicable codecs incl. two codecs derived in the harness "
+           "with the real #[derive(Codec)], dev and release builds; the thorough tier adds a -C target-cpu=native build) "
            "must be a step of spec/BioSeq.tla with exactly the predicted observation, evaluated by TLC on every event; TLC also checks the laws on the "
            "specification itself over small complete domains.")
 LEVEL_TEXT = {
@@ -42,3 +43,13 @@ LEVEL_TEXT = {
     "C19": "Convert/TextBaseToDna/Trim actions; all 256 bytes, all short strings over good/bad bytes, literals and SeqArray sources." + _common,
     "C20": "Mask/Unmask transforms with idempotence/involution/commutation laws model-checked on all symbols; traced on 5-bit symbols straddling words." + _common,
 }
+
+_SYS = (" Random walks through the WHOLE machine (Gen_SYS.tla under tlc -simulate: edits, copies, k-mers, iterators, observers side by side) are "
+        "replayed as well; a divergence is reported by the property that owns the diverging operation.")
+_GIANT = " Thorough tier: the same family of calls on a sequence longer than 2^32 bits whose content the specification knows as a function of the position (Giant.tla)."
+from plan import PLAN as _PLAN
+for _pid, _pl in _PLAN.items():
+    if any(len(g) > 2 for g in _pl.get("gen", {}).get("quick", [])):
+        LEVEL_TEXT[_pid] += _SYS
+    if any(t[0].startswith("giant_") for t in _pl.get("traces", [])):
+        LEVEL_TEXT[_pid] += _GIANT
